@@ -27,6 +27,15 @@ package ackhandler
 //      until no deadline is armed. In that quiescent state (nothing scheduled, every ACK
 //      delivered) no frame of a packet sent an hour before an acknowledged packet of its space
 //      may still be unreported: nothing is left that would ever report it,
+//   S  "reported exactly once" on the history in which the peer falls silent: the operation
+//      `silence` continues the history with timer expiries only -- no further ACK arrives; every
+//      loss-detection deadline is served at its time (OnLossDetectionTimeout) and, while the
+//      handler is in a PTO send mode, the connection's probe procedure runs (QueueProbePacket, one
+//      ack-eliciting probe packet sent, never acknowledged). If this continuation returns to a
+//      state it has been in before (same handler state relative to the clock, same ledger) while a
+//      frame handed in before is still unreported, then repeating that cycle for ever is a history
+//      of timer expiries in which the frame is never reported acked or lost: a violation. Nothing
+//      is demanded of a continuation that does not cycle within c06SilenceRounds deadlines,
 //   no panic.
 //
 // Path migration (MigratedPath, the call connection.go makes when the client switches to a
@@ -124,6 +133,7 @@ type c06Cfg struct {
 	retry       bool
 	migrate     bool // MigratedPath (only after handshake confirmation, as in connection.go)
 	noSettle    bool // do not offer the closing operation `settle` (clause Q)
+	noSilence   bool // do not offer the closing operation `silence` (clause S)
 	recvBytes   []int
 	recvPkt     bool
 	maxSends    int
@@ -399,6 +409,11 @@ func (in *c06Inst) Ops() []explore.Op {
 	if !c.noSettle && mode != SendNone && in.anyPending() {
 		ops = append(ops, explore.Op{N: "settle"})
 	}
+	// the peer falls silent (clause S); offered wherever a frame is still unreported and a
+	// loss-detection deadline is armed
+	if !c.noSilence && in.anyPending() && !in.api.GetLossDetectionTimeout().IsZero() {
+		ops = append(ops, explore.Op{N: "silence"})
+	}
 	return ops
 }
 
@@ -595,6 +610,7 @@ func (in *c06Inst) Apply(op explore.Op) *explore.Fail {
 	}
 	var opErr error
 	var settled *c06Settle
+	var silenced *c06Silence
 	switch op.N {
 	case "send":
 		p, gap, peekok, f := in.send(op.A, op.B)
@@ -721,6 +737,17 @@ func (in *c06Inst) Apply(op explore.Op) *explore.Fail {
 		} else {
 			in.outcome = "settle " + st.String()
 		}
+	case "silence":
+		sl, f, err := in.silence(op)
+		if f != nil {
+			return f
+		}
+		silenced, opErr = sl, err
+		if err != nil {
+			in.outcome = "silence -> error " + c06ErrClass(err)
+		} else {
+			in.outcome = "silence " + sl.String()
+		}
 	default:
 		explore.Must(false, "unknown op %v", op)
 	}
@@ -740,7 +767,125 @@ func (in *c06Inst) Apply(op explore.Op) *explore.Fail {
 			return f
 		}
 	}
+	if silenced != nil {
+		// the history is closed: nothing is explored behind it
+		in.dead = true
+		if f := in.checkSilenced(silenced); f != nil {
+			return f
+		}
+	}
 	return in.checkAccounts(op)
+}
+
+// c06SilenceRounds bounds the number of loss-detection deadlines served by one silence.
+const c06SilenceRounds = 8
+
+// c06Silence records what the continuation of one silence did.
+type c06Silence struct {
+	nBefore int    // ledger packets that existed before the continuation
+	rounds  int    // loss-detection deadlines served
+	probes  int    // probe packets sent
+	end     string // resolved | no-deadline | bound | cycle
+	// end == "cycle": the state after deadline `rounds` equals the state after deadline cycleFrom
+	cycleFrom int
+	timer     string // the deadline that is armed in the repeated state
+	elapsed   bool   // ... and whether it has already elapsed there
+}
+
+func (sl *c06Silence) String() string {
+	return fmt.Sprintf("deadlines=%d probes=%d end=%s", min(sl.rounds, 4), min(sl.probes, 4), sl.end)
+}
+
+// silence continues the history the way a connection does whose peer no longer answers: no ACK
+// arrives any more; every loss-detection deadline the handler arms is served at its time
+// (OnLossDetectionTimeout) and, while SendMode is a PTO mode, the connection's probe procedure
+// runs (QueueProbePacket, then one ordinary ack-eliciting packet is sent at that level; it is never
+// acknowledged). It ends when every frame handed in before has been reported, when no deadline is
+// armed, after c06SilenceRounds deadlines, or when the state reached (handler relative to the
+// clock + ledger) is one the continuation was in before.
+// An error return of the handler closes the connection (no verdict).
+func (in *c06Inst) silence(op explore.Op) (*c06Silence, *explore.Fail, error) {
+	sl := &c06Silence{nBefore: len(in.pkts)}
+	seen := map[string]int{in.stateKey(): 0}
+	for {
+		pending := false
+		for _, p := range in.pkts[:sl.nBefore] {
+			pending = pending || p.pending()
+		}
+		if !pending {
+			sl.end = "resolved"
+			return sl, nil, nil
+		}
+		t := in.api.GetLossDetectionTimeout()
+		if t.IsZero() {
+			sl.end = "no-deadline"
+			return sl, nil, nil
+		}
+		if sl.rounds == c06SilenceRounds {
+			sl.end = "bound"
+			return sl, nil, nil
+		}
+		sl.rounds++
+		if in.now.Before(t) {
+			in.now = t
+		}
+		in.nTimeouts++
+		err := in.api.OnLossDetectionTimeout(in.now)
+		in.fixGen()
+		if err != nil {
+			return sl, nil, err
+		}
+		for i := 0; i < 4; i++ { // a PTO asks for at most two probe packets
+			l := -1
+			switch in.api.SendMode(in.now) {
+			case SendPTOInitial:
+				l = c06I
+			case SendPTOHandshake:
+				l = c06H
+			case SendPTOAppData:
+				l = c06A
+			}
+			if l < 0 || !in.canSend(l) {
+				break
+			}
+			in.api.QueueProbePacket(c06Level(l))
+			_, _, _, f := in.send(l, c06Elic)
+			in.fixGen()
+			if f != nil {
+				return sl, f, nil
+			}
+			sl.probes++
+		}
+		if f := in.checkLedger(op); f != nil {
+			return sl, f, nil
+		}
+		k := in.stateKey()
+		if from, ok := seen[k]; ok {
+			sl.end, sl.cycleFrom = "cycle", from
+			sl.timer = fmt.Sprintf("%v@%v", in.h.alarm.TimerType, in.h.alarm.EncryptionLevel)
+			sl.elapsed = !in.h.alarm.Time.IsZero() && !in.h.alarm.Time.After(in.now)
+			return sl, nil, nil
+		}
+		seen[k] = sl.rounds
+	}
+}
+
+// checkSilenced evaluates clause S after a silence (the ledger states are up to date).
+func (in *c06Inst) checkSilenced(sl *c06Silence) *explore.Fail {
+	if sl.end != "cycle" {
+		return nil
+	}
+	for _, p := range in.pkts[:sl.nBefore] {
+		if !p.pending() {
+			continue
+		}
+		where := c06LevelName(p.level) + "/" + c06KindName(p.kind)
+		return explore.Failf("frame-never-reported-peer-silent:"+where+":stuck-deadline="+sl.timer,
+			"packet %d (%s, %d bytes) has a frame that is never reported acked or lost in the history in which no further ACK arrives and every loss-detection deadline is served at its time (PTO probes queued and sent as the connection does): after deadline %d the handler and the ledger are in exactly the state they were in after deadline %d (times relative to the clock), so serving deadlines for ever repeats that cycle; the armed deadline is %s, already elapsed: %v; %d probe packets were sent (bytesInFlight %d; %s)",
+			p.pn, where, p.size, sl.rounds, sl.cycleFrom, sl.timer, sl.elapsed, sl.probes, in.h.bytesInFlight, in.ledgerString())
+	}
+	explore.Must(false, "silence ended in a cycle without an unreported frame")
+	return nil
 }
 
 // c06SettleRounds bounds the number of loss-detection deadlines served by one settle.
@@ -1024,6 +1169,12 @@ func (in *c06Inst) ledgerString() string {
 func (in *c06Inst) Outcome() string { return in.outcome }
 
 func (in *c06Inst) Key() string {
+	return fmt.Sprintf("n=%d,%d,%d,%d,%d|", in.nSends, in.nAcks, in.nTicks, in.nTimeouts, in.nMigr) + in.stateKey()
+}
+
+// stateKey is the canonical state without the operation counters of the bounds: the handler
+// (times relative to the clock) and the ledger.
+func (in *c06Inst) stateKey() string {
 	var sb strings.Builder
 	sb.WriteString(canon.Dump(in.h, canon.Options{
 		TimeBase: int64(in.now),
@@ -1033,8 +1184,8 @@ func (in *c06Inst) Key() string {
 			return typ == "ackhandler.skippingPacketNumberGenerator" && field == "rng"
 		},
 	}))
-	fmt.Fprintf(&sb, "|dead=%v d0=%v rt=%v rc=%v s1=%v sH=%v s0=%d ms=%d mr=%d mv=%v n=%d,%d,%d,%d,%d|", in.dead, in.dropped0, in.retried, in.received,
-		in.sent1RTT, in.sentH, in.sent0RTT, in.mSent, in.mRecv, in.mValidated, in.nSends, in.nAcks, in.nTicks, in.nTimeouts, in.nMigr)
+	fmt.Fprintf(&sb, "|dead=%v d0=%v rt=%v rc=%v s1=%v sH=%v s0=%d ms=%d mr=%d mv=%v|", in.dead, in.dropped0, in.retried, in.received,
+		in.sent1RTT, in.sentH, in.sent0RTT, in.mSent, in.mRecv, in.mValidated)
 	for i := range in.sp {
 		fmt.Fprintf(&sb, "sp%d:%v,%d,%v|", i, in.sp[i].dropped, in.sp[i].retryBoundary, in.sp[i].sent)
 	}
